@@ -12,6 +12,10 @@ use crate::{
     Lit, ParseError,
 };
 
+/// Upper bound on the number of elements allocated up front based on the counts declared in the
+/// header. The counts are only a hint, everything beyond this grows while parsing.
+const MAX_PREALLOC: usize = 1 << 16;
+
 #[derive(Default)]
 #[non_exhaustive]
 pub struct Config {}
@@ -190,18 +194,18 @@ where
             ..OrderedAig::default()
         };
 
-        aig.latches.reserve(self.header.latch_count);
-        aig.outputs.reserve(self.header.output_count);
+        aig.latches
+            .reserve(self.header.latch_count.min(MAX_PREALLOC));
+        aig.outputs
+            .reserve(self.header.output_count.min(MAX_PREALLOC));
         aig.bad_state_properties
-            .reserve(self.header.bad_state_property_count);
+            .reserve(self.header.bad_state_property_count.min(MAX_PREALLOC));
         aig.invariant_constraints
-            .reserve(self.header.invariant_constraint_count);
-        aig.justice_properties = (0..self.header.justice_property_count)
-            .map(|_| vec![])
-            .collect();
+            .reserve(self.header.invariant_constraint_count.min(MAX_PREALLOC));
         aig.fairness_constraints
-            .reserve(self.header.fairness_constraint_count);
-        aig.and_gates.reserve(self.header.and_gate_count);
+            .reserve(self.header.fairness_constraint_count.min(MAX_PREALLOC));
+        aig.and_gates
+            .reserve(self.header.and_gate_count.min(MAX_PREALLOC));
 
         let justice_property_count = self.header.justice_property_count;
 
@@ -225,11 +229,13 @@ where
             aig.invariant_constraints.push(invariant_constraint);
         }
 
-        let mut justice_property_sizes = Vec::with_capacity(justice_property_count);
+        let mut justice_property_sizes =
+            Vec::with_capacity(justice_property_count.min(MAX_PREALLOC));
 
         let mut aag_reader = aag_reader.justice_properties()?;
         while let Some(justice_property_size) = aag_reader.next_justice_property_size()? {
             justice_property_sizes.push(justice_property_size);
+            aig.justice_properties.push(vec![]);
         }
 
         let mut justice_property = 0;
